@@ -42,7 +42,12 @@ def gen_kernel(rng, tier):
 
 def impl_kernel(case):
     cur = [tuple(u) for u in case["used"]]
-    r = _sg()._find_coord(cur, *case["req"])
+    try:
+        r = _sg()._find_coord(cur, *case["req"])
+    except (AttributeError, TypeError, KeyError, IndexError) as e:
+        # a private function called with the harness's own rendering of its bookkeeping: such an error means the bookkeeping has
+        # another shape now, not that the function misbehaves
+        raise C.GlueBroken(f"_find_coord no longer takes (list of (chrom, start, end), chrom, start, end): {type(e).__name__}: {e}")
     return {"found": bool(r), "used": [list(u) for u in cur]}
 
 
@@ -90,9 +95,11 @@ def impl_seq(case):
         try:
             name, hap = sg._find_random_sample(samples, sample_dict, used, *r["req"])
         except Exception as e:
-            if type(e) is not Exception:
+            if not C.deliberate_raise(e):
+                if isinstance(e, (AttributeError, TypeError, KeyError, IndexError)):
+                    raise C.GlueBroken(f"_find_random_sample no longer takes (samples, sample_dict, per-haplotype lists, chrom, start, end): {type(e).__name__}: {e}")
                 raise
-            completed = False
+            completed = False  # refused by a `raise` of its own: nothing is left (type and wording are not fixed)
             break
         grants.append(2 * sample_dict[name] + int(hap))
     return {"grants": grants, "used": [[list(x) for x in l] for l in used], "completed": completed}
